@@ -3,6 +3,7 @@ CONSTANTS U = "mc2q" F = "two"
 INVARIANT TypeOK
 INVARIANT Compositional
 INVARIANT RoeFalseNeverRaises
+INVARIANT NothingInvented
 INVARIANT FilterKeeps
 INVARIANT SecondRunSame
 INVARIANT Classical
